@@ -551,6 +551,50 @@ label = functools.lru_cache(maxsize=None)(lambda p: p.tag)
 d = {(a, 1): "first"}
 RESULT = ((a,) == (x,), (a, b) == (x, b), (a,) == (b,), [a] == [x], (x, 1) in d, d.get((b, 1)), label(a), label(x), label(b), [a, b].index(x), (a, 2) in d)
 ''', "(True, True, False, True, True, None, 'a', 'a', 'b', 0, False)"),
+    ("dataclass-fields-defaults-factories-eq", '''
+import dataclasses
+@dataclasses.dataclass
+class G:
+    comps: list = dataclasses.field(default_factory=list)
+    links: set = dataclasses.field(default_factory=set)
+    n: int = 3
+    def total(self): return len(self.comps) + len(self.links) + self.n
+@dataclasses.dataclass(eq=False)
+class F:
+    seen: set
+    queue: list = dataclasses.field(default_factory=list)
+    def enter(self, v):
+        self.seen.add(v); self.queue.append(v)
+a, b = G(), G()
+a.comps.append("x"); a.links |= {1, 2}
+f = F(set()); f.enter(5)
+try:
+    F()
+    missing = "no error"
+except TypeError:
+    missing = "TypeError"
+RESULT = (a.total(), b.total(), a == G(["x"], {1, 2}), a == b, b.comps is a.comps, f.queue, sorted(f.seen), F(set()) == F(set()), missing, G(n=7).n)
+''', "(6, 3, True, False, False, [5], [5], False, 'TypeError', 7)"),
+    ("itertools-count-compress-product-chain", '''
+import itertools
+idx = dict(zip(map(str, "abc"), itertools.count()))
+cells = list(itertools.compress(itertools.count(), [0, 1, 1, 0, 1]))
+pairs = list(itertools.product("ab", repeat=2))
+flat = list(itertools.chain.from_iterable([[1], [2, 3], []]))
+c = itertools.count(10, 2)
+RESULT = (idx, cells, pairs[:3], flat, next(c), next(c))
+''', "({'a': 0, 'b': 1, 'c': 2}, [1, 2, 4], [('a', 'a'), ('a', 'b'), ('b', 'a')], [1, 2, 3], 10, 12)"),
+    ("enum-members", '''
+import enum
+class Lazy(enum.Enum):
+    SAVE = "realsave"
+    MEMO = "realmemoize"
+    WRITE = "realwrite"
+    def describe(self): return self.name.lower()
+k = Lazy.SAVE
+q = [(Lazy.WRITE, (1,)), (Lazy.SAVE, (2,))]
+RESULT = (k.value, k.name, k is Lazy.SAVE, k is Lazy.MEMO, Lazy("realmemoize") is Lazy.MEMO, [m.name for m in Lazy], q[1][0] is Lazy.SAVE, k.describe(), k == Lazy.SAVE, k != Lazy.WRITE, isinstance(k, Lazy), {Lazy.SAVE: 1}[k])
+''', "('realsave', 'SAVE', True, False, True, ['SAVE', 'MEMO', 'WRITE'], True, 'save', True, True, True, 1)"),
 ]
 
 
